@@ -36,6 +36,8 @@ def answers_agree(a: str, b: str) -> bool:
     if a == b:
         return True
     if a.startswith("V ") and b.startswith("V "):
+        if a[2:3] in "KP" or b[2:3] in "KP":
+            return False   # key objects: exact string equality only (handled above)
         try:
             return proto.deep_equal(proto.dec(a[2:]), proto.dec(b[2:]))
         except Exception:
